@@ -106,3 +106,10 @@ Print Assumptions C06_regenerated_requestVote_grants_only_after_the_durable_reco
 Theorem C06_regenerated_persistVote_is_the_model : persist_vote_tree_agrees.
 Proof. exact persist_vote_tree_agrees_holds. Qed.
 Print Assumptions C06_regenerated_persistVote_is_the_model.
+
+(* setCurrentTerm, regenerated from raft.go: the in-memory term is set only on the path where the write of
+   keyCurrentTerm returned nil (the other path panics): the term a server acts in is the one it recorded durably *)
+From RaftProofs Require Import GenTreesMore.
+Theorem C06_regenerated_setCurrentTerm_persists_first : set_term_durable_first.
+Proof. exact set_term_durable_first_holds. Qed.
+Print Assumptions C06_regenerated_setCurrentTerm_persists_first.
